@@ -5,6 +5,7 @@
 package sync
 
 import (
+	"bytes"
 	gosync "sync"
 
 	"verif.local/vsched"
@@ -383,9 +384,34 @@ func (p *Pool) Put(x any) {
 		return
 	}
 	p.fresh()
+	poison(x)
 	hb := &vsched.Sync{}
 	hb.Release()
 	p.items = append(p.items, poolItem{x, hb})
+}
+
+// poison overwrites the content of a byte buffer that is handed back to the pool: from that moment another
+// goroutine may own and rewrite it, so whoever still reads it reads garbage - here deterministically, in every
+// schedule, instead of only when a second user happens to come by.
+func poison(x any) {
+	fill := func(b []byte) {
+		b = b[:cap(b)]
+		for i := range b {
+			b[i] = 0xA5
+		}
+	}
+	switch v := x.(type) {
+	case *[]byte:
+		if v != nil {
+			fill(*v)
+		}
+	case []byte:
+		fill(v)
+	case *bytes.Buffer:
+		if v != nil {
+			fill(v.Bytes())
+		}
+	}
 }
 
 // Get returns the most recently put item, or New().
